@@ -315,8 +315,15 @@ Proof.
 Qed.
 
 (* ---------- the invariant ---------- *)
+(* a pointer is acceptable if it is empty, or points into string space to a stored string of its length, or points
+   into the program text (never below it with a non-zero length: FIELD buffers are outside the model) *)
 Definition ptr_ok (c : cfg) (st : state) (p : ptr) : Prop :=
-  var_start c <= snd p -> fst p = 0 \/ exists bs, lookup (snd p) (strs st) = Some bs /\ zlen bs = fst p.
+  (var_start c <= snd p -> fst p = 0 \/ exists bs, lookup (snd p) (strs st) = Some bs /\ zlen bs = fst p) /\
+  (snd p < code_start c -> fst p = 0).
+
+Lemma ptr_ok_bound c st p : ptr_ok c st p -> var_start c <= snd p ->
+  fst p = 0 \/ exists bs, lookup (snd p) (strs st) = Some bs /\ zlen bs = fst p.
+Proof. intros [H _]. exact H. Qed.
 
 (* permanent strings lie above _temp *)
 Definition Jp (c : cfg) (st : state) (p : ptr) : Prop :=
@@ -347,7 +354,8 @@ Record Inv (c : cfg) (st : state) : Prop := mkInv {
   inv_valid : forall l, In l (roots st) -> valid_loc st l;
   inv_roots : forall l, In l (roots st) -> ptr_ok c st (get_loc st l);
   inv_low : 0 <= scur st /\ 0 <= acur st /\ (strs st = [] \/ var_start c + scur st + acur st <= cur st);
-  inv_J : Jinv c st
+  inv_J : Jinv c st;
+  inv_cfg : code_start c <= var_start c
 }.
 
 Lemma Inv_bound_ge c st a bs : Inv c st -> lookup a (strs st) = Some bs -> var_start c <= a /\ cur st < a.
